@@ -5,8 +5,10 @@ package main
 // renderer, spec shrinking.
 
 import (
+	"bytes"
 	"encoding/json"
 	"fmt"
+	"io"
 	"reflect"
 	"sort"
 	"strings"
@@ -40,6 +42,216 @@ type DecSpec struct {
 type TextSpec struct {
 	Table TableSpec `json:"table"`
 	Decs  []DecSpec `json:"decs"`
+	// Hooks: the application's own property callbacks, registered on the table
+	// before anything is built and before texttable.Wrap.  They never touch
+	// anything the renderer shows, so the output must not depend on them.
+	Hooks []HookSpec `json:"hooks,omitempty"`
+	// Nest: while the judged render is writing, another (independent) table is
+	// rendered from inside the writer's Write method.
+	Nest *NestSpec `json:"nest,omitempty"`
+}
+
+// HookSpec: When 0 add, 1 render-precell, 2 render, 3 render-postcell;
+// Target 0 the table itself, 1 each cell, 2 each row.  The callback returns
+// an error on its calls number ErrRem, ErrRem+ErrMod, ... (ErrMod 0: never)
+// and, with SetProp, stores a value under a key of its own on what it is given.
+type HookSpec struct {
+	When    int  `json:"when"`
+	Target  int  `json:"target"`
+	ErrMod  int  `json:"err_mod,omitempty"`
+	ErrRem  int  `json:"err_rem,omitempty"`
+	SetProp bool `json:"set_prop,omitempty"`
+}
+
+// NestSpec: at write call number At (every call when At < 0) of the outer
+// render, a table of Cols columns whose cells are Wide cells wide is rendered
+// through a wrapper of its own.
+type NestSpec struct {
+	At   int `json:"at"`
+	Cols int `json:"cols"`
+	Wide int `json:"wide"`
+}
+
+type userHook struct {
+	spec  HookSpec
+	calls int
+}
+
+var userHookKey = &struct{ name string }{"verif user hook"}
+
+func (h *userHook) UpdateProperties(po tabular.PropertyOwner) error {
+	i := h.calls
+	h.calls++
+	if h.spec.SetProp && po != nil {
+		po.SetProperty(userHookKey, i)
+	}
+	if h.spec.ErrMod > 0 && i%h.spec.ErrMod == h.spec.ErrRem%h.spec.ErrMod {
+		return fmt.Errorf("user hook: call %d refused", i)
+	}
+	return nil
+}
+
+// the callback time and target types are unexported: one call per combination
+func registerHook(t *tabular.ATable, when, target int, cb tabular.PropertyCallback) {
+	switch when*3 + target {
+	case 0:
+		t.RegisterPropertyCallback(t, tabular.CB_AT_ADD, tabular.CB_ON_ITSELF, cb)
+	case 1:
+		t.RegisterPropertyCallback(t, tabular.CB_AT_ADD, tabular.CB_ON_CELL, cb)
+	case 2:
+		t.RegisterPropertyCallback(t, tabular.CB_AT_ADD, tabular.CB_ON_ROW, cb)
+	case 3:
+		t.RegisterPropertyCallback(t, tabular.CB_AT_RENDER_PRECELL, tabular.CB_ON_ITSELF, cb)
+	case 4:
+		t.RegisterPropertyCallback(t, tabular.CB_AT_RENDER_PRECELL, tabular.CB_ON_CELL, cb)
+	case 5:
+		t.RegisterPropertyCallback(t, tabular.CB_AT_RENDER_PRECELL, tabular.CB_ON_ROW, cb)
+	case 6:
+		t.RegisterPropertyCallback(t, tabular.CB_AT_RENDER, tabular.CB_ON_ITSELF, cb)
+	case 7:
+		t.RegisterPropertyCallback(t, tabular.CB_AT_RENDER, tabular.CB_ON_CELL, cb)
+	case 8:
+		t.RegisterPropertyCallback(t, tabular.CB_AT_RENDER, tabular.CB_ON_ROW, cb)
+	case 9:
+		t.RegisterPropertyCallback(t, tabular.CB_AT_RENDER_POSTCELL, tabular.CB_ON_ITSELF, cb)
+	case 10:
+		t.RegisterPropertyCallback(t, tabular.CB_AT_RENDER_POSTCELL, tabular.CB_ON_CELL, cb)
+	case 11:
+		t.RegisterPropertyCallback(t, tabular.CB_AT_RENDER_POSTCELL, tabular.CB_ON_ROW, cb)
+	}
+}
+
+func registerHooks(t *tabular.ATable, hooks []HookSpec) {
+	for _, h := range hooks {
+		cb := &userHook{spec: h}
+		// a registration the library refuses (returns an error) is simply not made
+		registerHook(t, h.When, h.Target, cb)
+	}
+}
+
+// textW is the wrapper handed to BuildRenderW: the TextTable itself, or the
+// TextTable rendering into a writer that renders another table from inside Write.
+type textW struct {
+	tt   *texttable.TextTable
+	d    decoration.Decoration
+	nest *NestSpec
+}
+
+type nestWriter struct {
+	dst   io.Writer
+	w     *textW
+	calls int
+}
+
+func (nw *nestWriter) Write(p []byte) (int, error) {
+	i := nw.calls
+	nw.calls++
+	if nw.w.nest.At < 0 || i == nw.w.nest.At {
+		nw.w.renderNested()
+	}
+	return nw.dst.Write(p)
+}
+
+func (w *textW) renderNested() {
+	inner := tabular.New()
+	cell := longText(0, w.nest.Wide)
+	row := make([]interface{}, w.nest.Cols)
+	for i := range row {
+		row[i] = cell
+	}
+	inner.AddHeaders(row...)
+	inner.AddRowItems(row...)
+	texttable.Wrap(inner).SetDecoration(w.d).Render()
+}
+
+func (w *textW) Render() (string, error) {
+	if w.nest == nil {
+		return w.tt.Render()
+	}
+	var b bytes.Buffer
+	if err := w.tt.RenderTo(&nestWriter{dst: &b, w: w}); err != nil {
+		return "", err
+	}
+	return b.String(), nil
+}
+
+func (w *textW) RenderTo(x io.Writer) error {
+	if w.nest == nil {
+		return w.tt.RenderTo(x)
+	}
+	return w.tt.RenderTo(&nestWriter{dst: x, w: w})
+}
+
+// specSizes replaces the sizes of the view's cells that SpecView still reads
+// from the library's Cell (items declaring a width and/or a height) by what
+// the documentation says they are, computed from the spec: the declared width,
+// negative clamped to 0; the declared height, and where that is below 1, one
+// line if the cell has any width, else none.
+func specSizes(ts TableSpec, v *View) {
+	fix := func(items []ItemSpec, cells *[]VCell) {
+		if cells == nil {
+			return
+		}
+		for i := range *cells {
+			if i >= len(items) || items[i].K != "obj" {
+				continue
+			}
+			it, c := items[i], &(*cells)[i]
+			lines := strings.Split(c.Text, "\n")
+			if lines[len(lines)-1] == "" {
+				lines = lines[:len(lines)-1]
+			}
+			w := 0
+			for _, l := range lines {
+				if x := length.StringCells(l); x > w {
+					w = x
+				}
+			}
+			c.Widther = it.Mask&16 != 0
+			if c.Widther {
+				w = it.W
+			}
+			if w < 0 {
+				w = 0
+			}
+			h := len(lines)
+			if it.Mask&8 != 0 {
+				h = it.H
+			}
+			if h < 1 {
+				h = 0
+				if w > 0 {
+					h = 1
+				}
+			}
+			c.TW, c.H = w, h
+		}
+	}
+	hdr := ts.Header
+	if ts.Header2 != nil {
+		hdr = ts.Header2
+	}
+	if hdr != nil {
+		fix(*hdr, v.Header)
+	}
+	k := 0
+	for _, r := range ts.Rows {
+		if r.Sep {
+			k++
+			continue
+		}
+		all := append(append([]ItemSpec{}, r.Cells...), r.Late...)
+		n := 1
+		if r.Twice && (r.How == 1 || r.How == 3) {
+			n = 2
+		}
+		for j := 0; j < n; j++ {
+			if k < len(v.Rows) {
+				fix(all, v.Rows[k])
+			}
+			k++
+		}
+	}
 }
 
 type decDump struct {
@@ -214,6 +426,111 @@ func widerText(r *RNG) ItemSpec {
 	return Str(textString(r) + " " + pick(r, []string{"wider than before", "日本語日本語日本語", "ＷＩＤＥＲ", "x\nlonger second line"}))
 }
 
+func randHooks(r *RNG) []HookSpec {
+	n := 1 + r.Intn(3)
+	hs := make([]HookSpec, n)
+	for i := range hs {
+		hs[i] = HookSpec{When: r.Intn(4), Target: r.Intn(3), SetProp: r.Pct(40)}
+		if r.Pct(70) {
+			hs[i].Target = 1 // cell callbacks are the ones that share a list with the renderer's own
+		}
+		if r.Pct(75) {
+			hs[i].ErrMod = 1 + r.Intn(3)
+			hs[i].ErrRem = r.Intn(hs[i].ErrMod)
+		}
+	}
+	return hs
+}
+
+func randNest(r *RNG) *NestSpec {
+	n := &NestSpec{At: r.Intn(6), Cols: 1 + r.Intn(4), Wide: 1 + r.Intn(30)}
+	if r.Pct(30) {
+		n.At = -1
+	}
+	return n
+}
+
+// sameSizeText: a different text with the same number of lines and the same
+// display width on every line ("" when there is no such text)
+func sameSizeText(s string) string {
+	out := []rune(s)
+	changed := false
+	for i, x := range out {
+		var y rune
+		switch {
+		case x >= 'a' && x <= 'z':
+			y = 'a' + (x-'a'+1)%26
+		case x >= 'A' && x <= 'Z':
+			y = 'A' + (x-'A'+1)%26
+		case x >= '0' && x <= '9':
+			y = '0' + (x-'0'+1)%10
+		case x >= 0xff21 && x < 0xff3a, x >= 0xff41 && x < 0xff5a: // full-width Latin
+			y = x + 1
+		case x >= 0x4e00 && x < 0x9f00: // CJK ideographs, all two cells wide
+			y = x + 1
+		default:
+			continue
+		}
+		out[i] = y
+		changed = true
+	}
+	t := string(out)
+	if !changed {
+		return ""
+	}
+	a, b := strings.Split(s, "\n"), strings.Split(t, "\n")
+	if len(a) != len(b) {
+		return ""
+	}
+	for i := range a {
+		if length.StringCells(a[i]) != length.StringCells(b[i]) {
+			return ""
+		}
+	}
+	return t
+}
+
+// mutateSameSize makes every item that has a same-size variant mutable and
+// files a mutation to that variant: render, change the texts, Update the
+// cells, render again through the same wrapper.
+func mutateSameSize(ts *TableSpec, pct int, r *RNG) int {
+	n := 0
+	one := func(row, col int, it *ItemSpec) {
+		txt := it.B
+		if it.K == "obj" {
+			if it.Mask&1 == 0 {
+				return
+			}
+			txt = it.S
+		} else if it.K != "str" {
+			return
+		}
+		nw := sameSizeText(string(txt))
+		if nw == "" || (r != nil && !r.Pct(pct)) {
+			return
+		}
+		if it.K == "str" {
+			*it = ItemSpec{K: "obj", Mask: 1, S: txt}
+		}
+		ts.Mutations = append(ts.Mutations, Mutation{Row: row, Col: col, S: []byte(nw)})
+		n++
+	}
+	if ts.Header != nil && ts.Header2 == nil {
+		for j := range *ts.Header {
+			one(-1, j, &(*ts.Header)[j])
+		}
+	}
+	for i := range ts.Rows {
+		if ts.Rows[i].Twice {
+			continue
+		}
+		for j := range ts.Rows[i].Cells {
+			one(i, j, &ts.Rows[i].Cells[j])
+		}
+	}
+	return n
+}
+
 // lateEnrich turns a spec into a multi-step history on one reused wrapper:
 // a render after the last row, then changes that keep the table's shape
 // (cells appended to a ragged row already in the table, filling existing
@@ -334,6 +651,7 @@ func runText(ts TextSpec) textRun {
 	// sizes, shape, column properties as the building calls define them), never
 	// read back from the table under test
 	tr.view = ts.Table.SpecView()
+	specSizes(ts.Table, &tr.view)
 	keys := map[string]bool{}
 	for _, c := range viewAllCells(tr.view) {
 		addLineKeys(keys, c.Text)
@@ -351,9 +669,9 @@ func runText(ts TextSpec) textRun {
 		// one wrapper for the whole build: it renders the partial table at
 		// every stage of the spec and the complete one at the end (the
 		// observed outcome); without stages it is made after the build
-		o := ts.Table.BuildRender(t, func(t tabular.Table) func() (string, error) {
-			w := texttable.Wrap(t).SetDecoration(d)
-			return w.Render
+		registerHooks(t, ts.Hooks)
+		o := ts.Table.BuildRenderW(t, func(t tabular.Table) RenderW {
+			return &textW{tt: texttable.Wrap(t).SetDecoration(d), d: d, nest: ts.Nest}
 		})
 		if o.Kind == "panic" {
 			anyPanic = true
@@ -605,6 +923,10 @@ func textSpecSize(ts TextSpec) int {
 	for _, d := range ts.Decs {
 		n += len(d.Fields)
 	}
+	n += 3 * len(ts.Hooks)
+	if ts.Nest != nil {
+		n += 3
+	}
 	if ts.Table.Header2 != nil {
 		for _, c := range *ts.Table.Header2 {
 			n += len(c.B) + len(c.S)
@@ -669,6 +991,31 @@ func textCaseOut(ts TextSpec, tr textRun) CaseOut {
 					tags = append(tags, "history=early-default-alignment-later-changed")
 				}
 			}
+		}
+	}
+	if len(ts.Hooks) > 0 {
+		tags = append(tags, "history=user-callbacks-before-wrap")
+		for _, h := range ts.Hooks {
+			if h.ErrMod > 0 && h.Target == 1 && h.When > 0 {
+				tags = append(tags, "history=failing-user-render-cell-callback")
+			}
+		}
+	}
+	if ts.Nest != nil {
+		tags = append(tags, "history=other-table-rendered-during-write")
+	}
+	if len(ts.Table.Mutations) > 0 {
+		tags = append(tags, "history=render-mutate-update-render")
+	}
+	if ts.Table.Scribble || ts.Table.FinalVia != 0 || ts.Table.FaultAt != 0 || ts.Table.StageFaults {
+		tags = append(tags, "history=writer-variants-or-scribble")
+	}
+	if len(ts.Table.PropOps) > 0 {
+		tags = append(tags, "history=property-op-sequence")
+	}
+	for _, c := range viewAllCells(tr.view) {
+		if c.Text == "" && (c.H > 0 || c.TW > 0) {
+			tags = append(tags, "item=no-text-but-declared-size")
 		}
 	}
 	// sizes
@@ -739,6 +1086,16 @@ func shrinkTextJSON(spec json.RawMessage) []json.RawMessage {
 	for _, t := range shrinkTable(ts.Table) {
 		c := clone()
 		c.Table = t
+		out = append(out, mustJSON(c))
+	}
+	for i := range ts.Hooks {
+		c := clone()
+		c.Hooks = append(append([]HookSpec{}, ts.Hooks[:i]...), ts.Hooks[i+1:]...)
+		out = append(out, mustJSON(c))
+	}
+	if ts.Nest != nil {
+		c := clone()
+		c.Nest = nil
 		out = append(out, mustJSON(c))
 	}
 	if ts.Table.Header2 != nil {
